@@ -52,6 +52,13 @@ def cases(tier, rng):
     yield {'dtype': 'int', 'default': None, 'via': 'direct',
            'ops': [['add_key', [5, 0]], ['get', [5, 0]], ['set', [5, 0], 7], ['get', [5, 0]], ['add_key', [2, 0]], ['get', [2, 0]],
                    ['del_key', [5, 0]], ['add_key', [5, 0]], ['get', [5, 0]], ['iterate']]}
+    # a declared default value that happens to be callable (a class): stored and read back like any other value (outside the model's
+    # values: judged by the oracle)
+    for cname in ('list', 'dict', 'int'):
+        for via in ('direct', 'manager'):
+            yield {'dtype': 'obj', 'default': {'callable': cname}, 'via': via, 'no_model': True,
+                   'ops': [['add_key', [0]], ['get', [0]], ['is_set', [0]], ['add_key', [2]], ['get', [2]], ['set', [0], 5], ['get', [0]],
+                           ['del_key', [0]], ['add_key', [0]], ['get', [0]], ['set', [2], {'callable': cname}], ['get', [2]], ['iterate']]}
     yield {'dtype': 'mapper', 'default': None, 'via': 'direct',
            'ops': [['add_key', [0]], ['add_map', [0], 'a'], ['add_map', [0], {'t': [1, 2]}], ['get_map', [0], {'t': [1, 2]}],
                    ['iterate_map', [0]], ['add_key', [3, 0]], ['add_map', [3, 0], 'a'], ['get_map', [3, 0], 'b'], ['iterate_map', [3, 0]]]}
@@ -175,10 +182,14 @@ def real(case):
 
 
 def model_cmds(case):
+    if case.get('no_model'):
+        return []
     return [{'cmd': 'store', 'dtype': case['dtype'], 'default': case['default'], 'ops': case['ops']}]
 
 
 def model_result(case, ans):
+    if case.get('no_model'):
+        return {}
     if 'error' in ans[0]:
         return {'model_error': ans[0]['error']}
     return {'res': ans[0]['res']}
@@ -187,6 +198,8 @@ def model_result(case, ans):
 def compare(case, r, m):
     if 'harness_exc' in r:
         return 'harness: ' + r['harness_exc']
+    if case.get('no_model'):
+        return None
     if 'model_error' in m:
         return 'model: ' + m['model_error']
     for i, (a, b) in enumerate(zip(r['res'], m['res'])):
